@@ -50,7 +50,7 @@ CInit(cf, active) ==
       posOK  |-> TRUE,       \* positions are within what the reference printer decides
       shifted |-> FALSE,     \* the file has re-based X, Y or Z with G92 (discriminator D11)
       sc03   |-> TRUE,       \* C03 quantifier (no G28 / G92 XYZ / M206 in an open episode)
-      scE    |-> TRUE,       \* C04/C05 quantifier (absolute E, matched unmixed cycles)
+      scE    |-> TRUE,       \* C04/C05 quantifier (matched unmixed cycles; C04 also eabsOK)
       eabsOK |-> TRUE,       \* the extruder has been in absolute mode throughout
       gr     |-> 0,          \* ghost retraction cycle: 0 none, n > 0 E-only amount, -1 firmware
       gk     |-> "n",        \* retraction kind used so far: n(one) e(-only) f(irmware)
@@ -141,8 +141,7 @@ CycleStep(cs, c, g0, g1, isMove) ==
         eOnly == IsLinear(c) /\ ~HasXYZ(c)
         same == [ok |-> TRUE, gr |-> cs.gr, gk |-> cs.gk, ga |-> cs.ga]
         bad == [ok |-> FALSE, gr |-> cs.gr, gk |-> cs.gk, ga |-> cs.ga]
-    IN  IF c.code \in {"M82", "M83"} THEN bad
-        ELSE IF ~g1.eabs THEN bad
+    IN  IF c.code \in {"M82", "M83"} THEN (IF cs.gr = 0 THEN same ELSE bad)
         ELSE IF c.code = "G10" /\ ~(Seen(c, "P") \/ Seen(c, "L")) THEN
             IF cs.gr = 0 /\ cs.gk # "e" THEN [ok |-> TRUE, gr |-> -1, gk |-> "f", ga |-> cs.ga]
             ELSE bad
@@ -205,6 +204,8 @@ GStepActive(cs, ev, q, tol) ==
         cyc   == CycleStep(cs, c, g0, g1, isMove)
         scE1  == cs.scE /\ cyc.ok /\ ~anyBig
         eabsOK1 == cs.eabsOK /\ g1.eabs /\ c.code \notin {"M82", "M83"} /\ ~anyBig
+        \* C04 quantifies over absolute extrusion mode only; C05 (cycle scope scE) does not
+        scA1  == scE1 /\ eabsOK1
         maxret1 == Max2(cs.maxret, Ret(g1))
         g10sent == {k \in 1..nout : outs[k].code = "G10"
                                       /\ ~(Seen(outs[k], "P") \/ Seen(outs[k], "L"))}
@@ -264,12 +265,12 @@ GStepActive(cs, ev, q, tol) ==
              (mon /\ sc03_1 /\ closing) => TravelOK(phs, cs.ph.z, g1.z, tol)>>,
           \* ---- C04
           <<"C04", "C04a.e_coordinate",
-             (scope /\ scE1 /\ know /\ ~ep1 /\ ev.res # "exc") => Near(p1.e, g1.e, tol)>>,
+             (scope /\ scA1 /\ know /\ ~ep1 /\ ev.res # "exc") => Near(p1.e, g1.e, tol)>>,
           <<"C04", "C04b.pushed_amount",
-             (scope /\ scE1 /\ know /\ isMove /\ outside /\ ~cs.ep /\ g1.fil > g0.fil
+             (scope /\ scA1 /\ know /\ isMove /\ outside /\ ~cs.ep /\ g1.fil > g0.fil
                 /\ ev.res # "exc") => Near(movePush, g1.fil - g0.fil, tol)>>,
           <<"C04", "C04c.suppressed_push",
-             (scope /\ scE1 /\ mon /\ ep1 /\ ~opening) =>
+             (scope /\ scA1 /\ mon /\ ep1 /\ ~opening) =>
                 \A k \in 1..nout : phs[k + 1].fil <= phs[k].fil>>,
           \* ---- C05
           <<"C05", "C05a.deeper",
@@ -327,7 +328,7 @@ GStepActive(cs, ev, q, tol) ==
                       !.defer = @ + (IF deferred THEN 1 ELSE 0),
                       !.owed = @ + (IF scE1 /\ ~cs.ep /\ ~ep1 /\ Ret(cs.ph) > Ret(g0) + tol
                                        /\ Ret(p1) <= Ret(g1) + tol THEN 1 ELSE 0),
-                      !.c04b = @ + (IF scE1 /\ know /\ isMove /\ outside /\ ~cs.ep
+                      !.c04b = @ + (IF scA1 /\ know /\ isMove /\ outside /\ ~cs.ep
                                        /\ g1.fil > g0.fil THEN 1 ELSE 0),
                       !.offMoves = @ + (IF ~cs.en /\ isMove THEN 1 ELSE 0)],
            !.v = Judge(cs.v, checks, 1, n, tag)]
@@ -387,12 +388,12 @@ AtStep(cs, ev, q, tol, sameState) ==
           <<"C14", "C14.close.mode", (mon /\ closing /\ cs.sc03) => SyncMode(p1, g)>>,
           <<"C14", "C14.close.travel",
              (mon /\ closing /\ cs.sc03) => TravelOK(phs, cs.ph.z, g.z, tol)>>,
-          <<"C14", "C14.close.e", (mon /\ closing /\ cs.scE) => Near(p1.e, g.e, tol)>>,
+          <<"C14", "C14.close.e", (mon /\ closing /\ cs.scE /\ cs.eabsOK) => Near(p1.e, g.e, tol)>>,
           <<"C03", "C03.sync.xy", (mon /\ closing /\ cs.sc03) => SyncXY(p1, g, tol)>>,
           <<"C03", "C03.sync.z", (mon /\ closing /\ cs.sc03) => SyncZ(p1, g, tol)>>,
           <<"C03", "C03.travel",
              (mon /\ closing /\ cs.sc03) => TravelOK(phs, cs.ph.z, g.z, tol)>>,
-          <<"C04", "C04a.e_coordinate", (mon /\ closing /\ cs.scE) => Near(p1.e, g.e, tol)>>,
+          <<"C04", "C04a.e_coordinate", (mon /\ closing /\ cs.scE /\ cs.eabsOK) => Near(p1.e, g.e, tol)>>,
           <<"C05", "C05a.deeper",
              cs.scE => \A k \in 2..Len(phs) : Ret(phs[k]) <= cs.maxret + tol>>,
           <<"C05", "C05b.shallower", cs.scE => Ret(p1) >= Ret(g) - tol>>,
@@ -489,10 +490,10 @@ HookStep(cs, ev, q, tol) ==
           <<"C15", "C15.mode", (mon /\ closing /\ cs.sc03) => SyncMode(p1, g)>>,
           <<"C15", "C15.travel",
              (mon /\ closing /\ cs.sc03) => TravelOK(phs, cs.ph.z, g.z, tol)>>,
-          <<"C15", "C15.e", (mon /\ closing /\ cs.scE) => Near(p1.e, g.e, tol)>>,
+          <<"C15", "C15.e", (mon /\ closing /\ cs.scE /\ cs.eabsOK) => Near(p1.e, g.e, tol)>>,
           <<"C03", "C03.sync.xy", (mon /\ closing /\ cs.sc03) => SyncXY(p1, g, tol)>>,
           <<"C03", "C03.sync.z", (mon /\ closing /\ cs.sc03) => SyncZ(p1, g, tol)>>,
-          <<"C04", "C04a.e_coordinate", (mon /\ closing /\ cs.scE) => Near(p1.e, g.e, tol)>>,
+          <<"C04", "C04a.e_coordinate", (mon /\ closing /\ cs.scE /\ cs.eabsOK) => Near(p1.e, g.e, tol)>>,
           <<"C07", "C07.form",
              \A k \in 1..nout :
                 (~TxtIn(outs[k].txt, cf.exit)
